@@ -20,6 +20,8 @@ INVARIANT Inv_C14_consensus
 INVARIANT Inv_C14_once
 INVARIANT Inv_C14_boards
 INVARIANT Inv_C08_total
+INVARIANT Inv_C12_show
+INVARIANT Inv_C12_kill
 INVARIANT Inv_C15_replay
 INVARIANT Emit
 PROPERTY Prop_C07_order
